@@ -1,14 +1,15 @@
-(** C13 — model of the item recognition of message.processFetchForMessage
-    (internal/server/message/fetch.go), statement by statement: every data
-    item is recognised by SUBSTRING tests on the upper-cased item text, in
-    a fixed order of handlers; each handler contributes an [out] to the
-    response parts of Model/Respond.v.
+(** C13 — model of message.processFetchForMessage (internal/server/message/
+    fetch.go) after fix wave 3: the item list is split once into items
+    (parseFetchItems: a tokenizer over the list honouring [...] sections and
+    <a.b> ranges), and every item is answered once, under its own name, in
+    request order. Each answer contributes an [out] to the response parts of
+    Model/Respond.v.
 
     Inputs that come from the store / from Go's MIME packages are fields of
     [fenv] (the reconstructed message, the stored flag string, the
     BODYSTRUCTURE value, the content of numbered parts).  [None] = the Go
-    code panics (slice out of range) — C12's subject, not C13's.
-    Also HandleFetch's macro expansion and UID FETCH's item rewriting. *)
+    code panics (C12's subject).  Also HandleFetch's macro expansion and
+    UID FETCH's item rewriting. *)
 From Coq Require Import String Ascii List Bool Arith NArith ZArith.
 From Raven Require Import Base.GoStr Spec.Grammar Model.Respond.
 Import ListNotations.
@@ -20,7 +21,7 @@ Record fenv := {
   e_idate : str;                 (* formatted internal date *)
   e_msg : str;                   (* reconstructed message, CRLF line ends *)
   e_bs : str;                    (* value of BuildBodyStructure after "BODYSTRUCTURE " *)
-  e_parts : list (str * str)     (* section spec (as requested) -> content of that part *)
+  e_parts : list (str * str)     (* <part number>[.MIME] -> content of that part / its MIME header *)
 }.
 
 Fixpoint assoc (k : str) (l : list (str * str)) : option str :=
@@ -69,71 +70,60 @@ Definition part_path_ok (s : str) : bool :=
 
 Definition hdr_end (msg : str) : option nat := index msg (crlf ++ crlf).
 
-(** ---- numeric sections: BODY[1], BODY.PEEK[1.2], BODY[2.MIME]<0.10> ---- *)
-Fixpoint numeric_loop (fuel : nat) (orig upper : str) (parts : list (str * str)) (pos : nat)
-  : list out :=
-  match fuel with
-  | O => []
-  | S fuel' =>
-    let rest := skipn pos upper in
-    let idxPeek := index rest (S_ "BODY.PEEK[") in
-    let idxBody := index rest (S_ "BODY[") in
-    let sel :=
-      match idxPeek, idxBody with
-      | None, None => None
-      | Some p, None => Some (pos + p, 10)
-      | Some p, Some b => if Nat.ltb p b then Some (pos + p, 10) else Some (pos + b, 5)
-      | None, Some b => Some (pos + b, 5)
-      end in
-    match sel with
-    | None => []
-    | Some (offset, plen) =>
-      let start := offset + plen in
-      match index (skipn start upper) ["]"] with
-      | None => []
-      | Some e =>
-        let end_ := start + e in
-        let spec := firstn e (skipn start orig) in
-        let specU := to_upper spec in
-        let numeric := match spec with c :: _ => is_digit c | [] => false end in
-        if numeric then
-          let wantMIME := contains specU (S_ ".MIME") in
-          let partNum := match index specU (S_ ".MIME") with
-                         | Some i => firstn i spec
-                         | None => spec end in
-          if part_path_ok partNum then
-            let payload0 := match assoc spec parts with Some p => p | None => [] end in
-            let after := S end_ in
-            let '(payload, pstart, end2) :=
-              match nth_error upper after with
-              | Some c =>
-                  if Ascii.eqb c "<" then
-                    match index (skipn after upper) [">"] with
-                    | Some close =>
-                        let rs := firstn (close - 1) (skipn (S after) upper) in
-                        match scan_range rs with
-                        | (Some a, Some b) => (clamp_slice payload0 a b, Some a, after + close)
-                        | _ => (payload0, None, after + close)
-                        end
-                    | None => (payload0, None, end_)
-                    end
-                  else (payload0, None, end_)
-              | None => (payload0, None, end_)
-              end in
-            let name := S_ "BODY[" ++ spec ++ ["]"] in
-            let o := match payload with
-                     | [] => Inline name NIL
-                     | _ => match pstart with
-                            | Some a => Lit (name ++ ["<"] ++ dec a ++ [">"]) payload
-                            | None => Lit name payload
-                            end
-                     end in
-            o :: numeric_loop fuel' orig upper parts (S end2)
-          else numeric_loop fuel' orig upper parts (S end_)
-        else numeric_loop fuel' orig upper parts (S end_)
-      end
-    end
+(** ---- the item list: parseFetchItems / parseFetchItem (fix wave 3) ---- *)
+
+Record pitem := {
+  p_name : str;                    (* item name without section, ASCII upper-cased *)
+  p_has_sec : bool;
+  p_sec : str;                     (* text between the brackets, as written *)
+  p_partial : option (nat * nat)   (* a well-formed <start.length> *)
+}.
+
+Definition is_item_sep (c : ascii) : bool := Ascii.eqb c SP || Ascii.eqb c LP || Ascii.eqb c RP.
+
+(** the tokens of the item list: split at SP ( ) outside a [...] section.
+    [cur] is the current token, reversed. Structural recursion on the text:
+    every byte string yields a list. *)
+Fixpoint split_items (s : str) (in_sec : bool) (cur : str) : list str :=
+  match s with
+  | [] => match cur with [] => [] | _ => [rev cur] end
+  | c :: r =>
+      if in_sec then split_items r (negb (Ascii.eqb c RSB)) (c :: cur)
+      else if Ascii.eqb c LSB then split_items r true (c :: cur)
+      else if is_item_sep c
+           then match cur with [] => split_items r false [] | _ => rev cur :: split_items r false [] end
+           else split_items r false (c :: cur)
   end.
+
+(** fmt.Sscanf(spec, "%d.%d") with both numbers scanned, unsigned *)
+Definition scan_range2 (spec : str) : option (nat * nat) :=
+  match scan_range spec with
+  | (Some a, Some b) => Some (a, b)
+  | _ => None
+  end.
+
+Definition parse_item (tok : str) : pitem :=
+  match index_byte tok LSB with
+  | None => Build_pitem (to_upper tok) false [] None
+  | Some o =>
+      let rest := skipn (S o) tok in
+      match index_byte rest RSB with
+      | None => Build_pitem (to_upper (firstn o tok)) true rest None
+      | Some e =>
+          let rng := skipn (S e) rest in
+          let part :=
+            match rng with
+            | c :: _ =>
+                if Ascii.eqb c "<" && Nat.leb 2 (length rng) && Ascii.eqb (last rng " ") ">"
+                then scan_range2 (firstn (length rng - 2) (skipn 1 rng))
+                else None
+            | [] => None
+            end in
+          Build_pitem (to_upper (firstn o tok)) true (firstn e rest) part
+      end
+  end.
+
+Definition parse_items (items : str) : list pitem := map parse_item (split_items items false []).
 
 (** ---- BODY[HEADER.FIELDS (...)] ---- *)
 Definition default_fields : list str :=
@@ -167,130 +157,107 @@ Fixpoint hf_lines (lines : list str) (req : list str) (m : list (str * str)) (cu
     end
   end.
 
-Definition header_fields (items iu : str) (msg : str) : option out :=
-  let isPeek := contains iu (S_ "BODY.PEEK[HEADER.FIELDS") in
-  let start := match index iu (S_ "BODY.PEEK[HEADER.FIELDS") with
-               | Some i => Some i
-               | None => index iu (S_ "BODY[HEADER.FIELDS") end in
-  match start with
-  | None => None
-  | Some st_ =>
-    let prefixLen := if isPeek then 25 else 20 in
-    (* 182d3e8: a truncated item (no room for a field list) uses the default set *)
-    match Some (match slice_from items (Z.of_nat (st_ + prefixLen)) with
-                | Some f => f | None => [] end) with
-    | None => None
-    | Some fieldsStr =>
-      let req :=
-        match index fieldsStr [RP] with
-        | Some cp => match fields (firstn cp fieldsStr) with
-                     | [] => default_fields
-                     | fs => map (fun f => to_upper (trim_space f)) fs
-                     end
-        | None => default_fields
-        end in
-      let m := hf_lines (split msg crlf) req [] [] in
-      let hl := flat_map (fun h => match assoc h m with Some v => [v] | None => [] end) req in
-      let hs := join hl crlf in
-      let hs' := (match hs with [] => [] | _ => hs ++ crlf end) ++ crlf in
-      Some (Lit (S_ "BODY[HEADER.FIELDS (" ++ join req [SP] ++ S_ ")]") hs')
-    end
+(** headerFieldNames *)
+Definition header_field_names (section : str) : list str :=
+  match index_byte section LP with
+  | None => default_fields
+  | Some o =>
+      let fs := skipn (S o) section in
+      match index_byte fs RP with
+      | Some cp => match fields (firstn cp fs) with
+                   | [] => default_fields
+                   | l => map to_upper l
+                   end
+      | None => default_fields
+      end
   end.
 
-(** partialAfter (f502b8a): the range <a.b> written directly after the first
-    of the given item names *)
-Fixpoint partial_after (iu : str) (names : list str) : option (nat * nat) :=
-  match names with
-  | [] => None
-  | name :: rest_names =>
-      match index iu (name ++ ["<"]) with
-      | None => partial_after iu rest_names
-      | Some idx =>
-          let rest := skipn (idx + length name + 1) iu in
-          match index rest [">"] with
-          | None => partial_after iu rest_names
-          | Some e =>
-              match scan_range (firstn e rest) with
-              | (Some a, Some b) => Some (a, b)
-              | _ => partial_after iu rest_names
-              end
+(** selectHeaderFields *)
+Definition select_header_fields (msg : str) (req : list str) : str :=
+  let m := hf_lines (split msg crlf) req [] [] in
+  let hl := flat_map (fun h => match assoc h m with Some v => [v] | None => [] end) req in
+  let hs := join hl crlf in
+  (match hs with [] => [] | _ => hs ++ crlf end) ++ crlf.
+
+(** addSection: the item's own range selects the octets, its origin is announced *)
+Definition section_out (label : str) (it : pitem) (data : str) : out :=
+  match p_partial it with
+  | Some (a, b) => Lit (label ++ ["<"] ++ dec a ++ [">"]) (clamp_slice data a b)
+  | None => Lit label data
+  end.
+
+(** what one item contributes (at most one response part); [None] = Go panics *)
+Definition answer (it : pitem) (e : fenv) : option (list out) :=
+  let msg := e_msg e in
+  let hdrs := match hdr_end msg with Some i => firstn (i + 4) msg | None => msg end in
+  let body := match hdr_end msg with Some i => skipn (i + 4) msg | None => [] end in
+  let nm := p_name it in
+  if p_has_sec it then
+    if str_eqb nm (S_ "BODY") || str_eqb nm (S_ "BODY.PEEK") then
+      let su := to_upper (p_sec it) in
+      match su with
+      | [] => Some [section_out (S_ "BODY[]") it msg]
+      | c0 :: _ =>
+        if str_eqb su (S_ "TEXT") then Some [section_out (S_ "BODY[TEXT]") it body]
+        else if str_eqb su (S_ "HEADER") then Some [section_out (S_ "BODY[HEADER]") it hdrs]
+        else if str_eqb su (S_ "HEADER.FIELDS") || has_prefix su (S_ "HEADER.FIELDS ")
+                || has_prefix su (S_ "HEADER.FIELDS(") then
+          let req := header_field_names (p_sec it) in
+          Some [section_out (S_ "BODY[HEADER.FIELDS (" ++ join req [SP] ++ S_ ")]") it
+                            (select_header_fields msg req)]
+        else if is_digit c0 then
+          let spec := p_sec it in
+          let partNum := match index su (S_ ".MIME") with Some i => firstn i spec | None => spec end in
+          if part_path_ok partNum then
+            (* the content depends on the part number and on .MIME only: [e_parts] is keyed by
+               <part number>[.MIME] *)
+            let key := partNum ++ (if contains su (S_ ".MIME") then S_ ".MIME" else []) in
+            let payload0 := match assoc key (e_parts e) with Some p => p | None => [] end in
+            let label0 := S_ "BODY[" ++ spec ++ ["]"] in
+            let '(label, payload) :=
+              match p_partial it with
+              | Some (a, b) => (label0 ++ ["<"] ++ dec a ++ [">"], clamp_slice payload0 a b)
+              | None => (label0, payload0)
+              end in
+            Some [match payload with [] => Inline label NIL | _ => Lit label payload end]
+          else Some []
+        else Some []
+      end
+    else Some []
+  else if str_eqb nm (S_ "UID") then Some [Inline (S_ "UID") (dec (e_uid e))]
+  else if str_eqb nm (S_ "FLAGS") then Some [Inline (S_ "FLAGS") ([LP] ++ e_flags e ++ [RP])]
+  else if str_eqb nm (S_ "INTERNALDATE") then Some [Inline (S_ "INTERNALDATE") ([DQ] ++ e_idate e ++ [DQ])]
+  else if str_eqb nm (S_ "RFC822.SIZE") then Some [Inline (S_ "RFC822.SIZE") (dec (length msg))]
+  else if str_eqb nm (S_ "ENVELOPE") then
+    match envelope_value msg with Some v => Some [Inline (S_ "ENVELOPE") v] | None => None end
+  else if str_eqb nm (S_ "BODYSTRUCTURE") then Some [Inline (S_ "BODYSTRUCTURE") (e_bs e)]
+  else if str_eqb nm (S_ "BODY") then Some [Inline (S_ "BODY") (e_bs e)]
+  else if str_eqb nm (S_ "RFC822.HEADER") then Some [Lit (S_ "RFC822.HEADER") hdrs]
+  else if str_eqb nm (S_ "RFC822.TEXT") then Some [Lit (S_ "RFC822.TEXT") body]
+  else if str_eqb nm (S_ "RFC822") || str_eqb nm (S_ "RFC822.PEEK") then Some [Lit (S_ "BODY[]") msg]
+  else Some [].
+
+Definition out_label (o : out) : str := fst (pair_of o).
+
+(** the [answered] map of the Go loop: an item whose label was already
+    answered contributes nothing *)
+Fixpoint collect (its : list pitem) (e : fenv) (seen : list str) : option (list out) :=
+  match its with
+  | [] => Some []
+  | it :: rest =>
+      match answer it e with
+      | None => None
+      | Some outs =>
+          let fresh := filter (fun o => negb (existsb (str_eqb (out_label o)) seen)) outs in
+          match collect rest e (map out_label fresh ++ seen) with
+          | Some r => Some (fresh ++ r)
+          | None => None
           end
       end
   end.
 
-(** label and data of BODY[HEADER] / BODY[]: cut and announced with <start> when
-    the item carries a range *)
-Definition ranged (iu : str) (peek_name name : str) (data : str) : out :=
-  match partial_after iu [peek_name; name] with
-  | Some (a, b) => Lit (name ++ ["<"] ++ dec a ++ [">"]) (clamp_slice data a b)
-  | None => Lit name data
-  end.
-
-(** ---- the handlers in the order of the Go function ---- *)
-Definition opt_out (b : bool) (o : out) : list out := if b then [o] else [].
-
 Definition fetch_plan (items : str) (e : fenv) : option (list out) :=
-  let iu := to_upper items in
-  let has k := contains iu (S_ k) in
-  let msg := e_msg e in
-  (* 06b4a58: the header section includes the blank line *)
-  let hdrs := match hdr_end msg with Some i => firstn (i + 4) msg | None => msg end in
-  let body := match hdr_end msg with Some i => skipn (i + 4) msg | None => [] end in
-  let env_part :=
-    if has "ENVELOPE"%string then
-      match envelope_value msg with
-      | Some v => Some [Inline (S_ "ENVELOPE") v]
-      | None => None
-      end
-    else Some [] in
-  let hf_part :=
-    if has "BODY.PEEK[HEADER.FIELDS"%string || has "BODY[HEADER.FIELDS"%string then
-      match header_fields items iu msg with
-      | Some o => Some [o]
-      | None => None
-      end
-    else Some [] in
-  let text_body :=
-    if has "<"%string && has ">"%string then
-      match index iu ["<"], index iu [">"] with
-      | Some si, Some ei =>
-          if Nat.ltb si ei then
-            let spec := firstn (ei - si - 1) (skipn (S si) iu) in
-            let '(a, b) := scan_range spec in
-            let a' := match a with Some x => x | None => 0 end in
-            let b' := match b with Some x => x | None => length body end in
-            clamp_slice body a' b'
-          else body
-      | _, _ => body
-      end
-    else body in
-  match env_part, hf_part with
-  | Some envp, Some hfp =>
-    Some (
-      opt_out (has "UID"%string) (Inline (S_ "UID") (dec (e_uid e)))
-   ++ opt_out (has "FLAGS"%string) (Inline (S_ "FLAGS") ([LP] ++ e_flags e ++ [RP]))
-   ++ opt_out (has "INTERNALDATE"%string) (Inline (S_ "INTERNALDATE") ([DQ] ++ e_idate e ++ [DQ]))
-   ++ opt_out (has "RFC822.SIZE"%string) (Inline (S_ "RFC822.SIZE") (dec (length msg)))
-   ++ envp
-   ++ opt_out (has "BODYSTRUCTURE"%string) (Inline (S_ "BODYSTRUCTURE") (e_bs e))
-   ++ opt_out (has "BODY"%string && negb (has "BODY["%string) && negb (has "BODY.PEEK"%string)
-               && negb (has "BODYSTRUCTURE"%string)) (Inline (S_ "BODY") (e_bs e))
-   ++ (if has "BODY["%string || has "BODY.PEEK["%string
-       then numeric_loop (S (length items)) items iu (e_parts e) 0 else [])
-   ++ hfp
-   ++ opt_out (has "BODY.PEEK[TEXT]"%string || has "BODY[TEXT]"%string) (Lit (S_ "BODY[TEXT]") text_body)
-   ++ opt_out ((has "BODY.PEEK[HEADER]"%string || has "BODY[HEADER]"%string)
-               && negb (has "HEADER.FIELDS"%string))
-              (ranged iu (S_ "BODY.PEEK[HEADER]") (S_ "BODY[HEADER]") hdrs)
-   ++ opt_out (has "RFC822.HEADER"%string) (Lit (S_ "RFC822.HEADER") hdrs)
-   ++ opt_out (has "RFC822.TEXT"%string) (Lit (S_ "RFC822.TEXT") body)
-   ++ opt_out (has "BODY[]"%string || has "BODY.PEEK[]"%string || has "RFC822.PEEK"%string
-               || (has "RFC822"%string && negb (has "RFC822.SIZE"%string)
-                   && negb (has "RFC822.HEADER"%string) && negb (has "RFC822.TEXT"%string)
-                   && negb (has "RFC822.PEEK"%string)))
-              (ranged iu (S_ "BODY.PEEK[]") (S_ "BODY[]") msg))
-  | _, _ => None
-  end.
+  collect (parse_items items) e [].
 
 (** HandleFetch: macros, else strings.Trim(items, "()") *)
 Definition fetch_items (arg : str) : str :=
@@ -300,21 +267,16 @@ Definition fetch_items (arg : str) : str :=
   else if str_eqb u (S_ "FULL") then S_ "FLAGS INTERNALDATE RFC822.SIZE ENVELOPE BODY"
   else trim arg [LP; RP].
 
-(** handleUIDFetch: UID is added in front unless the text contains "UID" *)
+(** handleUIDFetch adds "UID " in front unless the text contains "UID";
+    HandleFetchForUIDs adds it unless UID is an ITEM of the list *)
 Definition uid_fetch_items (arg : str) : str :=
-  if contains (to_upper arg) (S_ "UID") then arg else S_ "UID " ++ arg.
+  let a1 := if contains (to_upper arg) (S_ "UID") then arg else S_ "UID " ++ arg in
+  if existsb (fun it => str_eqb (p_name it) (S_ "UID") && negb (p_has_sec it)) (parse_items a1)
+  then a1 else S_ "UID " ++ a1.
 
 (** the untagged FETCH response for one message *)
 Definition fetch_response (seq : nat) (items : str) (e : fenv) : option str :=
   option_map (fetch_line seq) (fetch_plan items e).
-
-(** the known violations met by this request on this message *)
-Definition classify_fetch (items : str) (e : fenv) : option finding :=
-  match fetch_plan items e with
-  | None => None
-  | Some plan =>
-      if contains (to_upper items) (S_ "ENVELOPE") then classify_headers (e_msg e) else None
-  end.
 
 (** ---- requests as a client writes them (RFC 3501 fetch-att) ---- *)
 Inductive section :=
@@ -364,30 +326,7 @@ Definition answered (req : list fitem) (plan : list out) : bool :=
 
 Definition is_simple (n : string) (it : fitem) : bool :=
   match it with I_Simple m => str_eqb m (S_ n) | _ => false end.
-Definition has_partial (it : fitem) : bool :=
-  match it with I_Sec _ _ (Some _) => true | _ => false end.
-Definition is_fields (it : fitem) : bool :=
-  match it with I_Sec _ (S_Fields _) _ => true | _ => false end.
 
-Definition sec_kind (it : fitem) : nat :=
-  match it with
-  | I_Sec _ S_All _ => 1 | I_Sec _ S_Text _ => 2 | I_Sec _ S_Header _ => 3 | _ => 0
-  end.
-
-(** request shapes with a known answer defect *)
+(** the one request shape that is still answered under another name *)
 Definition classify_req (req : list fitem) : option finding :=
-  let bodyish it := match it with
-                    | I_Sec _ _ _ => true
-                    | I_Simple m => str_eqb m (S_ "BODYSTRUCTURE") end in
-  if existsb (is_simple "BODY") req && existsb bodyish req then Some item_suppressed
-  else if existsb (is_simple "RFC822") req
-          && existsb (fun it => is_simple "RFC822.SIZE" it || is_simple "RFC822.HEADER" it
-                                || is_simple "RFC822.TEXT" it) req then Some item_suppressed
-  else if existsb (fun it => match it with I_Sec _ S_Header _ => true | _ => false end) req
-          && existsb is_fields req then Some item_suppressed
-  else if Nat.ltb 1 (length (filter is_fields req)) then Some item_suppressed
-  else if existsb (fun k => Nat.ltb 1 (length (filter (fun it => Nat.eqb (sec_kind it) k) req))) [1; 2; 3]
-       then Some item_suppressed     (* the same section twice: each handler answers once *)
-  else if existsb (is_simple "RFC822") req then Some rfc822_renamed
-  else if existsb has_partial req then Some partial_range
-  else None.
+  if existsb (is_simple "RFC822") req then Some rfc822_renamed else None.
